@@ -127,7 +127,27 @@ func (g *hgen) run() opIn {
 		f := g.pkg()
 		o.Fail = &f
 	}
+	if g.r.Chance(12) { // any kind of run may be interrupted
+		o.Cancel = g.cancel(nil)
+	}
 	return o
+}
+
+// cancel: the point at which the caller of the run gives up - before the call (cancelled / a deadline in the past),
+// or while one package is generated (New / first GenerateType / deferred callback; by cancel() or by a deadline that
+// passes there).  prefer: packages the in-package point should lie in (e.g. the ones just edited: they are executed).
+func (g *hgen) cancel(prefer []int) *cancelIn {
+	switch k := g.r.Intn(20); {
+	case k < 3:
+		return &cancelIn{At: "pre"}
+	case k < 5:
+		return &cancelIn{At: "expired"}
+	}
+	p := g.pkg()
+	if len(prefer) > 0 && g.r.Chance(85) {
+		p = core.Pick(g.r, prefer)
+	}
+	return &cancelIn{At: core.Pick(g.r, []string{"new", "type", "type", "defer"}), P: p, Deadline: g.r.Chance(20)}
 }
 
 func (g *hgen) hasEdge() bool {
@@ -251,6 +271,70 @@ func (g *hgen) history(kind string) json.RawMessage {
 			}
 			ops = append(ops, o)
 			if g.r.Chance(50) {
+				ops = append(ops, plain)
+			}
+		}
+		g.in.Ops = ops
+		b, _ := json.Marshal(g.in)
+		return b
+	}
+	if kind == "cancel" {
+		// INTERRUPTED RUNS: a module of >= 2 packages is brought to rest (gengo.sum records the current state), 1-3 packages
+		// are edited, then an All run whose context is cancelled at a chosen point - before the call, by a deadline in the
+		// past, while the first / a middle / the last edited package is generated - sometimes a second interrupted run,
+		// then ordinary All runs: every edited package has to be regenerated by the first run that gets to it, and a run
+		// that returned an error has left gengo.sum as it was
+		for tries := 0; tries < 30 && len(g.in.Pkgs) < 2; tries++ {
+			g.module()
+		}
+		plain := opIn{K: "run", All: true}
+		ops := []opIn{plain, plain}
+		if g.r.Chance(70) {
+			ops = append(ops, plain)
+		}
+		for k := 1 + g.r.Intn(3); k > 0; k-- {
+			var edited []int
+			for i := range g.in.Pkgs {
+				if g.r.Chance(60) {
+					edited = append(edited, i)
+				}
+			}
+			if len(edited) == 0 {
+				edited = []int{g.pkg()}
+			}
+			for _, p := range edited {
+				g.ver++
+				if g.r.Chance(80) {
+					ops = append(ops, opIn{K: "set", P: p, File: core.Pick(g.r, []string{"x1.go", "x1.go", "x2.go", "notes.txt"}), V: g.ver})
+				} else {
+					e := g.edit()
+					e.P = p
+					if e.K == "symlink" || e.K == "restoregen" {
+						e = opIn{K: "set", P: p, File: "u1.go", V: g.ver}
+					}
+					ops = append(ops, e)
+				}
+			}
+			for n := 1 + g.r.Intn(2); n > 0; n-- {
+				o := opIn{K: "run", All: true, Cancel: g.cancel(edited)}
+				switch j := g.r.Intn(20); {
+				case j < 2:
+					o.Force = true
+				case j < 4:
+					o.Entry = g.subset()
+				case j < 5:
+					o.All = false
+				case j < 7:
+					f := g.pkg()
+					o.Fail = &f
+				}
+				ops = append(ops, o)
+				if n > 1 && g.r.Bool() {
+					break
+				}
+			}
+			ops = append(ops, plain)
+			if g.r.Chance(60) {
 				ops = append(ops, plain)
 			}
 		}
@@ -387,6 +471,7 @@ func (g *hgen) history(kind string) json.RawMessage {
 func fixedCases() []json.RawMessage {
 	one := 1
 	zero := 0
+	two := 2
 	run := opIn{K: "run", All: true}
 	cases := []input{
 		// generation changes the directory: run 2 regenerates, run 3 skips, run 4 idle
@@ -430,6 +515,29 @@ func fixedCases() []json.RawMessage {
 				{K: "set", P: 0, File: "notes.txt", V: 5}, {K: "run", All: true, Entry: []int{1}}, {K: "run", All: true, Entry: []int{1}}, run, run}},
 		{Mod: "example.com/m", Pkgs: []pkgDecl{{Dir: ".", Imports: []int{1}}, {Dir: "a"}, {Dir: "a/sub", Imports: []int{0}}},
 			Ops: []opIn{run, run, run, {K: "run", All: true, Entry: []int{2}}, {K: "run", All: true, Entry: []int{2}}, {K: "run", All: true, Entry: []int{2}}, {K: "run", All: true, Entry: []int{2}}}},
+		// INTERRUPTED RUNS (seeded change C08-k: the loop stops at a cancelled context but gengo.sum is saved all the same).
+		// at rest; edit a and b; the context is cancelled while a is generated; ordinary runs.  b has to be regenerated by
+		// the first run that gets to it
+		{Mod: "example.com/m", Pkgs: []pkgDecl{{Dir: "a"}, {Dir: "b"}, {Dir: "c"}},
+			Ops: []opIn{run, run, run, {K: "set", P: 0, File: "x1.go", V: 4}, {K: "set", P: 1, File: "x1.go", V: 6},
+				{K: "run", All: true, Cancel: &cancelIn{At: "type", P: 0}}, run, run, run}},
+		// cancelled before the call / a deadline in the past / in the last package after all its types / by a deadline
+		// passing in the middle package / in New of the first one with Force / without All / with a failing later package
+		{Mod: "example.com/m", Pkgs: []pkgDecl{{Dir: "a", Imports: []int{1}}, {Dir: "b"}, {Dir: "c"}},
+			Ops: []opIn{run, run, run, {K: "set", P: 1, File: "x1.go", V: 4}, {K: "run", All: true, Cancel: &cancelIn{At: "pre"}}, run, run,
+				{K: "set", P: 2, File: "x2.go", V: 6}, {K: "run", All: true, Cancel: &cancelIn{At: "expired"}}, run, run,
+				{K: "set", P: 0, File: "x1.go", V: 8}, {K: "set", P: 2, File: "x1.go", V: 10}, {K: "run", All: true, Cancel: &cancelIn{At: "defer", P: 2}}, run, run,
+				{K: "set", P: 0, File: "notes.txt", V: 12}, {K: "set", P: 1, File: "notes.txt", V: 14}, {K: "set", P: 2, File: "notes.txt", V: 16},
+				{K: "run", All: true, Cancel: &cancelIn{At: "type", P: 1, Deadline: true}}, run, run,
+				{K: "run", All: true, Force: true, Cancel: &cancelIn{At: "new", P: 0}}, run,
+				{K: "set", P: 1, File: "x1.go", V: 18}, {K: "run", Entry: []int{0, 1}, Cancel: &cancelIn{At: "type", P: 0}}, run, run,
+				{K: "set", P: 0, File: "x1.go", V: 20}, {K: "set", P: 2, File: "x1.go", V: 22}, {K: "run", All: true, Fail: &two, Cancel: &cancelIn{At: "type", P: 0}}, run, run}},
+		// no gengo.sum yet / a subset of the entrypoints / a package at the module root and a nested one
+		{Mod: "example.com/m", Pkgs: []pkgDecl{{Dir: "."}, {Dir: "a", Imports: []int{2}}, {Dir: "a/sub"}},
+			Ops: []opIn{{K: "run", All: true, Cancel: &cancelIn{At: "type", P: 0}}, run, run, run,
+				{K: "set", P: 2, File: "x1.go", V: 4}, {K: "run", All: true, Entry: []int{1}, Cancel: &cancelIn{At: "new", P: 1}}, run, run, run,
+				{K: "set", P: 0, File: "x1.go", V: 6}, {K: "set", P: 1, File: "x1.go", V: 8}, {K: "run", All: true, Cancel: &cancelIn{At: "defer", P: 0}},
+				{K: "run", All: true, Cancel: &cancelIn{At: "pre"}}, run, run, run}},
 		// stale output trusted after the generated file is put back (not claimed otherwise)
 		{Mod: "example.com/m", Pkgs: []pkgDecl{{Dir: "a"}}, Ops: []opIn{{K: "set", P: 0, File: genFile, V: 3}, run, run, {K: "restoregen", P: 0}, run}},
 		// the tagged type disappears: the generated file is removed
@@ -655,16 +763,27 @@ func exhaustiveSubsetOrder() []json.RawMessage {
 			{K: "run", All: true, Entry: []int{0}}, {K: "run", All: true}}, 4)
 }
 
+// exhaustiveCancel: a, b, c at rest after three plain All runs; every history of length <= 3 ending in a run over
+// {edit a, edit b, run All, run All cancelled before the call, run All with a deadline in the past, run All cancelled
+// while a is generated, run All cancelled in a deferred callback of b}
+func exhaustiveCancel() []json.RawMessage {
+	plain := opIn{K: "run", All: true}
+	return exhaustiveSmall(input{Mod: "example.com/m", Pkgs: []pkgDecl{{Dir: "a"}, {Dir: "b"}, {Dir: "c"}}}, []opIn{plain, plain, plain},
+		[]opIn{{K: "set", P: 0, File: "x1.go"}, {K: "set", P: 1, File: "x1.go"}, plain,
+			{K: "run", All: true, Cancel: &cancelIn{At: "pre"}}, {K: "run", All: true, Cancel: &cancelIn{At: "expired"}},
+			{K: "run", All: true, Cancel: &cancelIn{At: "type", P: 0}}, {K: "run", All: true, Cancel: &cancelIn{At: "defer", P: 1}}}, 3)
+}
+
 func (prop) Generate(r *core.RNG, tier string) []json.RawMessage {
-	nHist, nSum := 100, 300
+	nHist, nSum := 112, 300
 	if tier == "thorough" {
-		nHist, nSum = 600, 3000
+		nHist, nSum = 672, 3000
 	}
 	out := fixedCases()
 	g := &hgen{r: r}
 	for i := 0; i < nHist; i++ {
 		kind := "mixed"
-		switch k := g.r.Intn(100); {
+		switch k := g.r.Intn(112); { // the kinds keep their shares of the first 100; interrupted runs come on top
 		case k < 12:
 			kind = "malformed"
 		case k < 37:
@@ -675,6 +794,8 @@ func (prop) Generate(r *core.RNG, tier string) []json.RawMessage {
 			kind = "dotfiles"
 		case k < 69:
 			kind = "subsetconverge"
+		case k >= 100:
+			kind = "cancel"
 		}
 		out = append(out, g.history(kind))
 	}
@@ -686,13 +807,14 @@ func (prop) Generate(r *core.RNG, tier string) []json.RawMessage {
 		out = append(out, exhaustiveForceSubset()...)
 		out = append(out, exhaustiveRootDot()...)
 		out = append(out, exhaustiveSubsetOrder()...)
+		out = append(out, exhaustiveCancel()...)
 	}
 	return out
 }
 
 func (prop) Extra(r *core.RNG, tier string, scratch string) ([]string, []string, map[string]any) {
 	stats := map[string]any{"exhaustive": tier == "thorough",
-		"exhaustive_scope": "thorough: every history of length <= 4 that ends in a run, over 2 packages and the alphabet {edit a, edit b, delete gengo.sum, drop its first line, run All, run All+Force, run All failing in b, run All on entrypoint a only, run without All}; and, with a importing b, after two plain All runs every history of length <= 3 that ends in a run over {edit a, edit b, run All, run All+Force, run All on a only, run All+Force on a only}; and, with a package at the module root and package a below it at rest after three plain All runs, every history of length <= 3 that ends in a run over {set .gitignore in the root, delete it, set a/.gitignore, set gengo.sum.bak in the root, set a/gengo.sum, run All}; and, with b importing a and c, every history of length <= 4 that ends in a run over {edit a, edit c, run All on b only, run All on a only, run All}"}
+		"exhaustive_scope": "thorough: every history of length <= 4 that ends in a run, over 2 packages and the alphabet {edit a, edit b, delete gengo.sum, drop its first line, run All, run All+Force, run All failing in b, run All on entrypoint a only, run without All}; and, with a importing b, after two plain All runs every history of length <= 3 that ends in a run over {edit a, edit b, run All, run All+Force, run All on a only, run All+Force on a only}; and, with a package at the module root and package a below it at rest after three plain All runs, every history of length <= 3 that ends in a run over {set .gitignore in the root, delete it, set a/.gitignore, set gengo.sum.bak in the root, set a/gengo.sum, run All}; and, with b importing a and c, every history of length <= 4 that ends in a run over {edit a, edit c, run All on b only, run All on a only, run All}; and, with a b c at rest after three plain All runs, every history of length <= 3 that ends in a run over {edit a, edit b, run All, run All with a context cancelled before the call, run All with a deadline in the past, run All cancelled while a is generated, run All cancelled in a deferred callback of b}"}
 	// The deliberate NON-claim (DESIGN.md, C08): cache transparency.  The recorded hash is the one of the state a run
 	// STARTED from, so putting that state back (sources + an older generated file) is trusted.  Shown, not judged.
 	run := opIn{K: "run", All: true}
@@ -780,6 +902,21 @@ func (prop) Shrink(raw json.RawMessage) []json.RawMessage {
 			c.Ops[i].Force = false
 			add(c)
 		}
+		if o.Cancel != nil {
+			c := clone()
+			c.Ops[i].Cancel = nil
+			add(c)
+			if o.Cancel.Deadline {
+				c := clone()
+				c.Ops[i].Cancel.Deadline = false
+				add(c)
+			}
+			if o.Cancel.At == "new" || o.Cancel.At == "defer" {
+				c := clone()
+				c.Ops[i].Cancel.At = "type"
+				add(c)
+			}
+		}
 	}
 	// drop the last package when nothing refers to it
 	if last := len(in.Pkgs) - 1; last > 0 {
@@ -792,6 +929,7 @@ func (prop) Shrink(raw json.RawMessage) []json.RawMessage {
 		for _, o := range in.Ops {
 			used = used || ((o.K == "set" || o.K == "del" || o.K == "symlink" || o.K == "restoregen") && o.P == last)
 			used = used || (o.Fail != nil && *o.Fail == last)
+			used = used || (o.Cancel != nil && o.Cancel.P == last)
 			for _, e := range o.Entry {
 				used = used || e == last
 			}
